@@ -95,6 +95,9 @@ struct Response {
 struct Success {
     static std::optional<Success> fromDom(const QDomElement &);
     void toXml(QXmlStreamWriter *writer) const;
+
+    // additional data with success (RFC 6120, 6.4.6)
+    QByteArray data;
 };
 
 }  // namespace Sasl
@@ -381,6 +384,8 @@ public:
     virtual void setCredentials(const QXmpp::Private::Credentials &) = 0;
     virtual QXmpp::Private::SaslMechanism mechanism() const = 0;
     virtual std::optional<QByteArray> respond(const QByteArray &challenge) = 0;
+    /// Whether the server has authenticated itself as far as the mechanism requires it.
+    virtual bool isServerAuthenticated() const { return true; }
 
     static bool isMechanismAvailable(QXmpp::Private::SaslMechanism, const QXmpp::Private::Credentials &);
     static std::unique_ptr<QXmppSaslClient> create(const QString &mechanism, QObject *parent = nullptr);
@@ -522,9 +527,11 @@ public:
     void setCredentials(const QXmpp::Private::Credentials &) override;
     QXmpp::Private::SaslMechanism mechanism() const override { return { m_mechanism }; }
     std::optional<QByteArray> respond(const QByteArray &challenge) override;
+    bool isServerAuthenticated() const override { return m_serverVerified; }
 
 private:
     QXmpp::Private::SaslScramMechanism m_mechanism;
+    bool m_serverVerified = false;
     int m_step;
     QString m_password;
     uint32_t m_dklen;
